@@ -5,6 +5,7 @@ from psec import tr31
 
 ALPHA_HDR = "09AZaz"
 ALPHA_HEX = "0123456789ABCDEFabcdef"
+NON_HEX = [" ", "+", "-", "\t", "\n", "_", "x", "G", "０", "１", "９", "٣", "\x00", "é"]
 
 
 def canon(s, hl):
@@ -31,6 +32,12 @@ def tampers(rng, g, hl, others, full):
         for ch in (alpha if (full and p < hl) or p >= hl else rng.sample(alpha, min(len(alpha), 6))):
             if ch != g[p]:
                 yield "subst@%d" % p, g[:p] + ch + g[p + 1:]
+        if p >= hl:
+            for ch in rng.sample(NON_HEX, 5) + ([chr(0xFF10 + int(g[p])), chr(0x660 + int(g[p]))] if g[p].isdigit() else []):
+                yield "nonhex@%d" % p, g[:p] + ch + g[p + 1:]
+            if g[p] == "0":
+                for ch in (" ", "+", "\t", "\n"):
+                    yield "nonhex0@%d" % p, g[:p] + ch + g[p + 1:]
         if p % 4 == 0:
             yield "del@%d" % p, g[:p] + g[p + 1:]
             yield "del+len@%d" % p, fix_len(g[:p] + g[p + 1:])
@@ -72,7 +79,10 @@ def run(ctx):
     seen = set()
     for v in "ABCD":
         for ks in t.KBPK_SIZES[v]:
-            kbpk = rng.randbytes(ks)
+            from harness import gens as G
+            kbpk = G.key(rng, ks) if ctx.rng.random() < 0.5 else rng.randbytes(ks)
+            if v == "B" and ks == 24 and rng.random() < 0.7:
+                kbpk = kbpk[:16] + kbpk[:8]            # K1 K2 K1: Triple DES-equivalent to its 16-byte form, not TR-31-equivalent
             gens = []
             for prof in ("none", "few", "few"):
                 c = t.gen_case(rng, version=v, profile=prof, keylen=rng.choice([8, 16, 24, 5]), mask=None)
@@ -95,6 +105,11 @@ def run(ctx):
                     k2 = bytearray(kbpk)
                     k2[bit // 8] ^= 1 << (bit % 8)
                     items.append((bytes(k2), g, False, g, "kbpk-bit", key))
+                # a KBPK of another admissible length built from the same components (not equivalent for B and D)
+                if v in "BD":
+                    for k3 in {kbpk[:16], kbpk[:16] + kbpk[:8], kbpk + kbpk[:8], (kbpk + kbpk)[:32]}:
+                        if k3 != kbpk and len(k3) in t.KBPK_SIZES[v]:
+                            items.append((k3, g, False, g, "kbpk-other-length", key))
     budget = ctx.n(2600, 60000)
     if len(items) > budget:
         keep = [it for it in items if it[4] in ("genuine", "lower-case hex")]
